@@ -543,7 +543,16 @@ func (c *compiler) arrayOperator(l interface{}, r interface{}, op string) (inter
 			}
 		}
 		if err == nil {
-			return reflect.Append(reflect.ValueOf(l), reflect.ValueOf(r)), nil
+			lv := reflect.ValueOf(l)
+			if lv.Kind() == reflect.Slice {
+				// append to a copy: a slice with spare capacity would be
+				// extended in place, in memory that belongs to the caller
+				// (and is shared by concurrent renders of the same data)
+				cp := reflect.MakeSlice(lv.Type(), lv.Len(), lv.Len()+1)
+				reflect.Copy(cp, lv)
+				lv = cp
+			}
+			return reflect.Append(lv, reflect.ValueOf(r)), nil
 		}
 	default:
 		err = fmt.Errorf("unkown operator (%s) on %T and %T ", op, l, r)
